@@ -1,4 +1,4 @@
-HOOK_COMMITS = ["5763a84", "0183cfc", "533f193"]
+HOOK_COMMITS = ['5763a84', '0183cfc', '533f193']
 FIX_COMMITS = ["cf6d5f6 (C18)", "C05 cursor fix"]
 NOTES = ("All checks are `bin/check <ID> --tier quick|thorough`. Every check rebuilds the harness from /repo's working tree with --cfg asca_verif, "
          "regenerates spec/gen/Inventory.tla from the tables the code loaded, runs TLC on the property's spec instances and binds them to the code by replay "
@@ -63,6 +63,108 @@ CHECKS.update({
                 "apply_rules_trace are validated against tv/TV_Pipeline (group-major order, snapshot rule, returned changes = Pipeline!Trace on the recorded history).",
         "note": BASE_NOTE + " Stated for returned traces only: run and tracer may fail with different errors (refuted SameErr in MC_Pipeline).",
         "technique": "TLC model checking of trace loop vs run loop for all rule functions; schedule replay; trace validation of loop events (TV_Pipeline)",
+    },
+})
+CHECKS.update({
+    "C01": {
+        "level": "model_checking",
+        "text": "spec/Text.tla defines, for a target bundle, the SET of renderings over every order of equally good candidates; TLC evaluates it over the loaded tables and the real renderer must "
+                "produce the spec's rendering for the loaded order on every target (binding), so the hash-seed quantifier is covered for the renderer by construction. Across processes: K fresh processes run "
+                "the same workload (renderer, `+` romanisers, run on a list / the list again / a permutation / singletons, tracer); every observation is keyed by its input and TLC (TV_Laws C01Law) accepts "
+                "iff all observations of one input carry the same result.",
+        "note": BASE_NOTE + " std HashMap seeds cannot be set, only sampled (6 / 12 processes).",
+        "technique": "TLA+ renderer model (set of admissible renderings) evaluated by TLC + spec->impl binding; impl->spec validation of per-input observations recorded in K processes",
+    },
+    "C02": {
+        "level": "model_checking",
+        "text": "mc/MC_Scan proves progress and termination of the reference machine. Every call of run / get_trace_string on rules from the Grammar generator (TLC), token-level mutations, noise, and on alias "
+                "strings is executed with the loop-head step counter of the hooks; one record per call (outcome, loop states of the two main loops per sub-rule application) is validated by TLC (C02Law: "
+                "returned Ok|Err, tracer returned, no main-loop state repeated). Open defects are listed as known findings with signatures evaluated on the failing vector.",
+        "note": BASE_NOTE + " Step budget = min(400 (|w|+2)^(1+e) (|r|+2), 20000) ticks; the largest tick count of a returning call is recorded in evidence (hundreds). Noise is produced by the harness, not by TLC.",
+        "technique": "TLC model checking of progress on the reference machine; impl->spec validation of tick traces and outcomes of generated / mutated / noise inputs",
+    },
+    "C06": {
+        "level": "model_checking",
+        "text": "On the reference machine NoMatchStutter is model-checked. The Grammar generator (TLC) produces rules of the full documented grammar with a literal absent from every word planted at the "
+                "first segment position, at the end of the input (after variable references, ellipses, boundaries) or in every context environment; a systematic sweep plants it at every position of 14 "
+                "input templates and 8 context templates; blank and comment-only lines are added. Every application is recorded structurally and TLC (C06Law) requires after = before.",
+        "note": BASE_NOTE,
+        "technique": "TLC model checking of the stutter lemma + impl->spec validation of structural before/after records of planted rules",
+    },
+    "C07": {
+        "level": "model_checking",
+        "text": "Identity rules (`X1=1..Xk=k > 1..k`, `[aF] > [aF]` for features, nodes, length, stress, `%:[astress] > [astress]`) with arbitrary environments are generated by TLC and every application "
+                "must leave the word untouched (C07Law). For variables in contexts TLC enumerates `A > B / X=1 _ 1` (4 targets x 4 outputs x 5 binders, every small word) and the syllable version and "
+                "computes the reference result (fires exactly between identical bundles); the real interpreter is replayed on every vector.",
+        "note": BASE_NOTE,
+        "technique": "impl->spec validation of identity-rule records; bounded-exhaustive spec->impl replay of the context-variable reference semantics",
+    },
+    "C08": {
+        "level": "model_checking",
+        "text": "WordOK (>= 1 syllable, no empty syllable, tone <= 4 non-zero digits, bundle bits within the defined features, packed place well-formed) is an invariant of the reference machine and is "
+                "evaluated by TLC on the word after EVERY sub-rule of histories of up to 6 rules (generated, repository tests, shipped project), plus two systematic strata: every cardinal with its place "
+                "sub-nodes removed one rule at a time in every order, and rules that can consume a whole tiny word.",
+        "note": BASE_NOTE,
+        "technique": "TLC invariant on the reference machine + impl->spec validation of every intermediate word (raw bits included)",
+    },
+    "C09": {
+        "level": "model_checking",
+        "text": "spec/Text.tla contains the renderer and the longest-match reader; TLC evaluates both on every target bundle of the domain and the harness checks that the real renderer and the real word "
+                "parser agree with them and that reading back gives the same segment; assembled words (length, stress, tone, boundaries) are recorded and TLC (C09Law) requires parse(render(w)) = w and "
+                "the fixed-point corollary.",
+        "note": BASE_NOTE + " Quick: every base, a seeded third of base+1 diacritic, feature changes on a seeded 1/128; thorough adds two diacritics.",
+        "technique": "TLA+ renderer/reader model evaluated by TLC, spec->impl binding; impl->spec validation of word round trips",
+    },
+    "C12": {
+        "level": "model_checking",
+        "text": "The manual's expansions are operators of spec/Grammar.tla (broadcast of condensed rules, MirrorSeq, group matrices, ExpandOptSide, MetAsVars); TLC generates (shorthand, expansion) pairs "
+                "for the five shorthands inside rules of the full grammar and the real interpreter must give the same structural word for both on every word.",
+        "note": BASE_NOTE,
+        "technique": "TLA+ expansion operators + spec->impl replay of shorthand/expansion pairs (implementation against implementation, structurally)",
+    },
+    "C13": {
+        "level": "model_checking",
+        "text": "Frozen synonym tables (spec/Lexicon.tla): every member of every class in two spacing variants through the rule lexer and the alias lexer against the canonical spelling; rules of the full "
+                "grammar with two independent respellings of every synonym-bearing token and respelled words: outcomes (words or error variant) must be equal.",
+        "note": BASE_NOTE + " Letter case is not varied (a capital before a feature name is an alpha, so upper-case spellings are ambiguous by design).",
+        "technique": "frozen TLA+ synonym tables enumerated by TLC; spec->impl replay of respelling pairs through both lexers",
+    },
+    "C14": {
+        "level": "model_checking",
+        "text": "ProsKept is model-checked on the reference machine; TLC generates rules classified segment-only / prosody-only with arbitrary environments and exceptions of the full grammar; every application "
+                "is recorded and TLC (C14Law) requires the untouched tier (WordStruct!ProsTier / SegTier) to be equal.",
+        "note": BASE_NOTE,
+        "technique": "TLC model checking of tier preservation on the reference machine + impl->spec validation of tier equality on recorded applications",
+    },
+    "C15": {
+        "level": "model_checking",
+        "text": "spec/Alias.tla is the romaniser as a text transducer over the default rendering; TLC enumerates every ordered list of <= 2 romanisers from a pool x every small word with the printed form, "
+                "replayed on the real run. For random rules/words: the sequence of words entering and leaving every rule (hook events) with and without romanisers must be identical, and a deromanised "
+                "spelling must give the result of the IPA it stands for (C15Law).",
+        "note": BASE_NOTE + " The printed-form model covers words without length and tone.",
+        "technique": "TLA+ transducer model, bounded-exhaustive spec->impl replay; impl->spec validation of event sequences with/without aliases",
+    },
+    "C17": {
+        "level": "fault_enumeration",
+        "text": "A frozen catalogue of syntax, late-syntax, runtime, word and alias faults (calibrated per run) is planted at every (group, line) of every project shape; TLC enumerates the cases and - from the "
+                "pipeline's phase order - which of two faults is reported. The error is formatted under catch_unwind and its location and caret span are checked.",
+        "note": "Trusted: the catalogue spec/frozen/faults.json; fillers never match the fixed word. Quick: shapes <= 2x2 single faults; thorough: 3x3 and a seeded 1/97 of all ordered pairs.",
+        "technique": "fault enumeration: TLC enumerates (shape, position, fault[, second fault]) with the reported fault predicted from the phase order; replay on the real run and formatters",
+    },
+    "C19": {
+        "level": "model_checking",
+        "text": "spec/Cli.tla models the file readers/writers; mc/MC_Cli proves that the round trip holds exactly on the well-formed projects; TLC enumerates every sequence of <= 5 rule-file / alias-file lines "
+                "and <= 3 word-file lines with what the readers make of it, and the real binary (conv asca, run -o, conv json round trip with explicit and default paths) is compared with it and with asca::run.",
+        "note": "Trusted: TLC; the binary is built from /repo's working tree; fixed strings instantiate abstract line contents. Quick samples 1/40 of the line sequences.",
+        "technique": "TLC model checking of reader/writer round trip; spec->impl replay of line sequences through the real binary",
+    },
+    "C20": {
+        "level": "model_checking",
+        "text": "mc/MC_Seq is the resolver with call stack and cache as an explicit machine under the free interpretation of the stage functions: validator accepts iff acyclic and no dangling reference, every "
+                "delivered result is the composition along the chain for every request order, termination. Seeded 4-tag configs (chains, forks, cycles, filters in mixed case, extra word files, every "
+                "declaration order) are materialised and the real `asca seq`, `-t`, `conv tag -r` compared with the plan executed through asca::run.",
+        "note": "Trusted: TLC; the binary is built from /repo's working tree; rule files and words are fixed real texts.",
+        "technique": "TLC model checking of the resolver/cache machine (free interpretation); spec->impl replay of project configs through the real binary",
     },
 })
 NOT_APPLICABLE = {}
